@@ -986,7 +986,7 @@ fn h2c_backend(addr: SocketAddr, plans: Vec<PeerPlan>, shared: Arc<Shared>) -> s
         let mut rx = Receiver::new(plan);
         let mut c = H2Conn::new(s, Role::Server);
         rx.setup(&mut c);
-        c.read_timeout = Duration::from_secs(5);
+        c.read_timeout = paced(Duration::from_secs(5));
         let r = h2c_serve(&mut c, &mut rx, conn, &shared);
         if let Err(e) = r {
             if !shared.stop.load(Ordering::SeqCst) && e != H2Error::Closed {
@@ -1285,14 +1285,14 @@ fn run_conn(plan: &ConnPlan, front: SocketAddr, shared: &Shared, back_h2c: bool,
     let mut rx = Receiver::new(&plan.front);
     let mut cio = plan.front.io.clone();
     cio.sndbuf = 0;
-    let tcp = match peers::connect(front, None, &cio, Duration::from_secs(3)) {
+    let tcp = match peers::connect(front, None, &cio, paced(Duration::from_secs(3))) {
         Ok(t) => t,
         Err(e) => {
             out.harness_error = Some(format!("connect: {e}"));
             return out;
         }
     };
-    let t = match tls::TlsClient::handshake(tcp, HOST, tls::client_config(&["h2"]), Duration::from_secs(5)) {
+    let t = match tls::TlsClient::handshake(tcp, HOST, tls::client_config(&["h2"]), paced(Duration::from_secs(5))) {
         Ok((t, info)) if info.alpn.as_deref() == Some(b"h2") => t,
         Ok(_) => {
             out.harness_error = Some("ALPN h2 not selected".to_owned());
@@ -1359,7 +1359,7 @@ fn run_conn_h1(plan: &ConnPlan, front: SocketAddr, shared: &Shared, watchdog: Du
     // one TCP connection per transfer: sozu answers 502 to every second request of a keep-alive
     // HTTP/1.1 connection towards an H2 backend (not this property's business)
     'xfers: for (i, x) in xs.iter_mut().enumerate() {
-        let mut s = match peers::connect(front, None, &io, Duration::from_secs(3)) {
+        let mut s = match peers::connect(front, None, &io, paced(Duration::from_secs(3))) {
             Ok(s) => s,
             Err(e) => {
                 out.harness_error = Some(format!("connect: {e}"));
@@ -1751,8 +1751,9 @@ fn client_loop(
         if next_open == xs.len() && xs.iter().all(|x| x.done || x.failed.is_some()) {
             return Ok(());
         }
-        if started.elapsed() > Duration::from_secs(90) {
-            out.stuck = Some(("connection_deadline".to_owned(), "still progressing after 90 s".to_owned()));
+        let connection_deadline = paced(Duration::from_secs(CONNECTION_DEADLINE_S.load(Ordering::SeqCst)));
+        if started.elapsed() > connection_deadline {
+            out.stuck = Some(("connection_deadline".to_owned(), format!("still progressing after {connection_deadline:?}")));
             return Ok(());
         }
         if last_progress.elapsed() > watchdog {
@@ -1781,6 +1782,83 @@ fn client_loop(
     }
 }
 
+
+// ================================================================================================
+// Pace: how slow is this machine right now? A calibration cell (fixed plan, run alone before the
+// generated cells) is timed; every wall-clock allowance of the check (watchdogs, connect and
+// handshake timeouts, the per-connection deadline) is multiplied by the measured slowdown, and the
+// number of cells run side by side shrinks with it. Clocks never decide a verdict here: an expired
+// watchdog only makes a candidate, and candidates are decided by re-running the cell alone.
+// ================================================================================================
+
+static PACE_X100: std::sync::atomic::AtomicU64 = std::sync::atomic::AtomicU64::new(100);
+/// a connection that still makes progress after this long (times the pace) is given up (not judged)
+static CONNECTION_DEADLINE_S: std::sync::atomic::AtomicU64 = std::sync::atomic::AtomicU64::new(90);
+
+/// what the calibration cell takes on an idle 16-core machine (worker start, 8 configuration
+/// calls, TLS handshake, 1 MiB through sozu): 25-35 ms
+const CALIBRATION_REFERENCE_MS: u64 = 50;
+
+fn pace() -> f64 {
+    PACE_X100.load(Ordering::SeqCst) as f64 / 100.0
+}
+
+fn paced(d: Duration) -> Duration {
+    d.mul_f64(pace())
+}
+
+fn calibration_plan() -> CellPlan {
+    let peer = |settings: Vec<(u16, u32)>| PeerPlan {
+        settings,
+        grant: Grant::Burst,
+        changes: Vec::new(),
+        io: IoProgram::fast(),
+        quiet_ms: 3,
+        literal_hpack: false,
+    };
+    let xfers = (1..=2u64)
+        .map(|id| Xfer { id, up: 262_144, down: 262_144, pad: None, content_length: true, down_pad: None })
+        .collect();
+    CellPlan {
+        case: u64::MAX,
+        back_h2c: false,
+        back: vec![peer(Vec::new())],
+        h1_io: IoProgram::fast(),
+        conns: vec![ConnPlan {
+            front_h1: false,
+            front: peer(vec![(h2::SET_ENABLE_PUSH, 0), (h2::SET_INITIAL_WINDOW_SIZE, 1 << 20)]),
+            xfers,
+            max_inflight: 2,
+            up_quantum: 16_384,
+            padded_class: false,
+        }],
+        front_sndbuf: None,
+        back_sndbuf: None,
+        own_conn_window: None,
+        buffer_size: 16_393,
+    }
+}
+
+/// run the calibration cell (twice, the faster one counts) and set the pace; returns (ms, pace)
+fn calibrate(ctx: &Ctx, force: Force) -> (u64, f64) {
+    let mut best = u64::MAX;
+    for _ in 0..2 {
+        let mut scratch = Report::new("exploration", "calibration");
+        let t0 = Instant::now();
+        let r = run_plan(ctx, force, ctx.seed, calibration_plan(), &mut scratch, true);
+        if r.clean {
+            best = best.min(t0.elapsed().as_millis() as u64);
+        }
+    }
+    if best == u64::MAX {
+        // could not even complete the calibration transfer: assume the slowest pace
+        best = CALIBRATION_REFERENCE_MS * 8;
+    }
+    let pace_x100 = (best * 100 / CALIBRATION_REFERENCE_MS).clamp(100, 800);
+    PACE_X100.store(ctx.opt_u64("pace_x100", pace_x100), Ordering::SeqCst);
+    (best, pace())
+}
+
 // ================================================================================================
 // Cell
 // ================================================================================================
@@ -1790,6 +1868,17 @@ struct Stuck {
     class: String,
     detail: String,
     witness: Value,
+    /// a class that can never become a violation (harness-side or unattributable); re-running the
+    /// cell alone can still decide it: if everything completes there, the first run was a load artefact
+    soft: bool,
+}
+
+/// what one execution of a cell produced besides the entries in the report
+struct CellResult {
+    stuck: Vec<Stuck>,
+    /// every planned connection ran and every transfer on it ended (done or exempt): nothing
+    /// stuck, aborted, refused or lost
+    clean: bool,
 }
 
 fn fingerprint(plan: &CellPlan, cp: &ConnPlan) -> u64 {
@@ -1837,9 +1926,17 @@ impl Force {
     }
 }
 
-fn run_cell(ctx: &Ctx, force: Force, seed: u64, case: u64, rep: &mut Report, solo: bool) -> Vec<Stuck> {
+fn run_cell(ctx: &Ctx, force: Force, seed: u64, case: u64, rep: &mut Report, solo: bool) -> CellResult {
     let plan = gen_cell(seed, case, force.thorough, force.back_h2c, force.front_h1);
+    run_plan(ctx, force, seed, plan, rep, solo)
+}
+
+fn run_plan(ctx: &Ctx, force: Force, seed: u64, plan: CellPlan, rep: &mut Report, solo: bool) -> CellResult {
+    let case = plan.case;
     let mut stuck_out = Vec::new();
+    let mut clean = true;
+    // an execution that could not be judged: decided later by running the cell alone
+    let soft = |class: &str, detail: String, witness: Value| Stuck { case, class: class.to_owned(), detail, witness, soft: true };
     let ip = lab::fresh_ip();
     let front = lab::sa(ip, 8443);
     let front_plain = lab::sa(ip, 8080);
@@ -1849,8 +1946,8 @@ fn run_cell(ctx: &Ctx, force: Force, seed: u64, case: u64, rep: &mut Report, sol
     let mut backend = match backend {
         Ok(b) => b,
         Err(e) => {
-            rep.inconclusive(&format!("backend bind: {}", e.kind()));
-            return stuck_out;
+            stuck_out.push(soft("backend_bind", format!("{}", e.kind()), json!({"case": case, "seed": seed, "generator": force.json()})));
+            return CellResult { stuck: stuck_out, clean: false };
         }
     };
     let mut opts = WorkerOpts {
@@ -1902,12 +1999,17 @@ fn run_cell(ctx: &Ctx, force: Force, seed: u64, case: u64, rep: &mut Report, sol
         && w.add_backend("c", "b0", back)
         && w.add_certificate(front, &cert, vec![], &key, vec![HOST.into()]);
     if !ok {
-        rep.inconclusive("sozu refused the cell configuration");
+        stuck_out.push(soft("configuration_not_applied", "a configuration request was not answered Ok in time".to_owned(), json!({"case": case, "seed": seed, "generator": force.json()})));
         w.stop();
         backend.stop();
-        return stuck_out;
+        return CellResult { stuck: stuck_out, clean: false };
     }
-    let watchdog = Duration::from_millis(ctx.opt_u64("watchdog_ms", if solo { 8_000 } else { 4_000 }));
+    // no-progress allowance; side by side the cells also slow each other down, hence twice the pace
+    let watchdog = match ctx.opts.get("watchdog_ms").and_then(|v| v.parse().ok()) {
+        Some(ms) => Duration::from_millis(ms),
+        None if solo => paced(Duration::from_secs(8)).min(Duration::from_secs(40)),
+        None => paced(Duration::from_secs(4)).mul_f64(if pace() > 1.5 { 2.0 } else { 1.0 }).min(Duration::from_secs(30)),
+    };
     let mut front_stats = SideStats::default();
     let back_zero = plan.back_h2c
         && plan.back.iter().any(|b| {
@@ -1960,8 +2062,12 @@ fn run_cell(ctx: &Ctx, force: Force, seed: u64, case: u64, rep: &mut Report, sol
             b
         };
         if let Some(e) = &o.harness_error {
-            rep.inconclusive(&format!("no H2 connection: {}", e.split(':').next().unwrap_or("")));
-            rep.sample(json!({"case": case, "conn": ci, "no_h2_connection": e, "client_io": cp.front.io.describe(), "frame_trace": o.trace_tail}));
+            clean = false;
+            stuck_out.push(soft(
+                "no_h2_connection",
+                e.split(':').next().unwrap_or("").to_owned(),
+                with(json!({"no_h2_connection": e, "client_io": cp.front.io.describe(), "frame_trace": o.trace_tail})),
+            ));
             continue;
         }
         for (kind, detail, trace) in &o.violations {
@@ -1970,6 +2076,11 @@ fn run_cell(ctx: &Ctx, force: Force, seed: u64, case: u64, rep: &mut Report, sol
                 &format!("towards the H2 client: {detail}"),
                 with(json!({"expected": "every frame within the limits the client advertised", "observed": detail, "frame_trace": trace})),
             );
+        }
+        // (limit violations seen by the ledger are verdicts of their own and do not keep the
+        // transfers from completing: they do not make an execution "not completed")
+        if o.starved.is_some() || !o.corrupt.is_empty() {
+            clean = false;
         }
         if let Some((side, detail)) = &o.starved {
             rep.violation(
@@ -2013,18 +2124,22 @@ fn run_cell(ctx: &Ctx, force: Force, seed: u64, case: u64, rep: &mut Report, sol
             }
             if !o.corrupt.is_empty() || !shared.corrupt.lock().unwrap().is_empty() {
                 rep.obs("aborted_after_corruption", 1); // consequence of the desynchronised stream
+                clean = false;
                 continue;
             }
             // an abort counts only when it happens again alone (load / close races are not verdicts)
+            clean = false;
             stuck_out.push(Stuck {
                 case,
                 class: format!("aborted_{phase}"),
                 detail: d.clone(),
                 witness: with(json!({"expected": "transfer completes", "observed": d, "frame_trace": o.trace_tail,
                     "backend": format!("{:?}", shared.prog.lock().unwrap())})),
+                soft: false,
             });
         }
         if let Some((class, detail)) = &o.stuck {
+            clean = false;
             let decisive = matches!(class.as_str(), "front" | "back" | "own_window_front" | "own_window_back");
             let unfinished: Vec<u64> = o.xfers.iter().filter(|x| x.sid != 0 && !x.done).map(|x| x.id).collect();
             let xfers_txt = format!("{:?}", o.xfers.iter().filter(|x| x.sid != 0 && !x.done).take(8).collect::<Vec<_>>());
@@ -2041,12 +2156,12 @@ fn run_cell(ctx: &Ctx, force: Force, seed: u64, case: u64, rep: &mut Report, sol
                         "observed": detail, "frame_trace": o.trace_tail, "client_incomplete_frame": o.pending_header,
                         "unfinished_transfers": xfers_txt, "backend_view_of_them": back_txt,
                         "backend_incomplete_frames": format!("{:?}", shared.back_pending_headers.lock().unwrap())})),
+                    soft: false,
                 });
             } else if back_zero {
                 rep.obs("exempt.stuck_with_backend_max_concurrent_0", 1);
             } else {
-                rep.inconclusive(&format!("watchdog/{class}"));
-                rep.sample(json!({"case": case, "conn": ci, "watchdog": class, "detail": detail, "frame_trace": o.trace_tail}));
+                stuck_out.push(soft(class, detail.clone(), with(json!({"watchdog": class, "detail": detail, "frame_trace": o.trace_tail}))));
             }
             break; // the worker is in an unknown state for the following connections
         }
@@ -2062,13 +2177,18 @@ fn run_cell(ctx: &Ctx, force: Force, seed: u64, case: u64, rep: &mut Report, sol
     backend.stop();
     for p in panics {
         if p.in_sozu() {
+            clean = false;
             rep.violation(&p.signature(), &format!("sozu panicked: {} at {}", p.message, p.location), json!({"case": case, "seed": seed, "generator": force.json(), "plan": plan_json(&plan)}));
         } else {
             // e.g. kawa-0.6.8 storage/repr.rs:612 `amount - data.len() + index`: an intermediate
             // underflow that only the verif profile's overflow-checks turn into a panic (the release
             // build wraps back to the right value). Not sozu's code, not a verdict; the cell is lost.
-            rep.inconclusive("worker thread panicked in a dependency (overflow-checks artefact)");
-            rep.sample(json!({"case": case, "worker_panic_outside_repo": p.location, "message": p.message}));
+            clean = false;
+            stuck_out.push(soft(
+                "dependency_panic",
+                format!("{} at {}", p.message, p.location),
+                json!({"case": case, "seed": seed, "generator": force.json(), "worker_panic_outside_repo": p.location, "message": p.message}),
+            ));
         }
     }
     for (kind, detail, trace, conn) in shared.back_violations.lock().unwrap().iter() {
@@ -2107,7 +2227,10 @@ fn run_cell(ctx: &Ctx, force: Force, seed: u64, case: u64, rep: &mut Report, sol
             }
         }
     }
-    stuck_out
+    if !shared.corrupt.lock().unwrap().is_empty() {
+        clean = false;
+    }
+    CellResult { stuck: stuck_out, clean }
 }
 
 
@@ -2387,7 +2510,8 @@ pub fn run(ctx: &Ctx) -> Report {
     );
     rep.assume("sozu's documented reapers/flood guards are configured out of the way (h2_stream_idle_timeout_seconds=3600, per-window flood thresholds raised, front/back timeouts 600 s)");
     rep.assume("a limit this peer changed counts from the SETTINGS ACK on (RFC 9113 6.5.3); until then the more permissive of old and new value is accepted");
-    rep.assume("a stalled or aborted transfer is a violation only when it happens again in an isolated re-run of the same cell; at most 3 (thorough: 20) cells are re-run, further first sightings of a class confirmed that way are counted, not judged");
+    rep.assume("a stalled or aborted transfer is a violation only when it happens again in an isolated re-run of the same cell; a first sighting whose isolated re-run completes every transfer is decided by that re-run (load artefact); further first sightings of a class already confirmed alone in the same run are counted, not judged");
+    rep.assume("wall-clock allowances (watchdogs, connect/handshake timeouts) are multiplied by the slowdown of a calibration cell measured at start; they only ever create candidates for the isolated re-run, never verdicts");
     rep.assume("own-window starvation is decided on the wire, not on the clock: the sender is blocked by the connection window alone, everything it sent has been received by the far side (backend for uploads, client for downloads), and two PING round trips completed without a WINDOW_UPDATE on stream 0");
     rep.assume("transfers answered with a non-200 status, and transfers towards a backend that advertises MAX_CONCURRENT_STREAMS=0, are exempt from the progress oracle");
     lab::raise_fd_limit();
@@ -2445,6 +2569,10 @@ pub fn run(ctx: &Ctx) -> Report {
     }
     let stuck: Mutex<Vec<Stuck>> = Mutex::new(Vec::new());
     let force = Force::from_ctx(ctx);
+    CONNECTION_DEADLINE_S.store(ctx.opt_u64("connection_deadline_s", ctx.tier.pick(40, 90)), Ordering::SeqCst);
+    let (calibration_ms, pace_now) = calibrate(ctx, force);
+    rep.set("calibration", json!({"cell_ms": calibration_ms, "reference_ms": CALIBRATION_REFERENCE_MS, "pace": pace_now}));
+    rep.obs_max("pace_x100", (pace_now * 100.0) as u64);
     if let Some(path) = &ctx.replay {
         let v: Value = serde_json::from_str(&std::fs::read_to_string(path).unwrap_or_default()).unwrap_or(Value::Null);
         let mut cases: Vec<(u64, u64, Force)> = v["witnesses"]
@@ -2459,74 +2587,138 @@ pub fn run(ctx: &Ctx) -> Report {
         rep.required.clear();
         for (seed, case, f) in cases {
             let s = run_cell(ctx, f, seed, case, &mut rep, true);
-            stuck.lock().unwrap().extend(s);
+            stuck.lock().unwrap().extend(s.stuck);
         }
     } else {
         let n = ctx.opt_u64("cases", ctx.tier.pick(150, 3_000));
         // leave room for the isolated re-runs inside the tier's wall-clock budget
         let soft = ctx.budget.mul_f64(ctx.tier.pick(0.6, 0.85));
-        par_cases(ctx, &mut rep, n, |i, r| {
+        // a cell is a worker, a backend and a client (5-6 busy threads): never more cells side by
+        // side than hardware threads, and fewer when the machine is slow right now
+        let cells = if pace_now > 2.0 { (ctx.threads * 2 / 3).max(2) } else { ctx.threads }.min(ctx.threads.max(1));
+        rep.obs_max("cells_side_by_side", cells as u64);
+        let par_ctx = Ctx { threads: cells, ..ctx.clone() };
+        par_cases(&par_ctx, &mut rep, n, |i, r| {
             if ctx.started.elapsed() > soft {
                 r.obs("cells_not_started_soft_deadline", 1);
                 return;
             }
             let s = run_cell(ctx, force, ctx.seed, i, r, false);
-            stuck.lock().unwrap().extend(s);
+            stuck.lock().unwrap().extend(s.stuck);
         });
     }
-    // bounded progress: a stuck transfer counts only when it is stuck again alone
+    // Candidates (watchdog expiries, aborts, executions that could not be judged) are decided by
+    // running their cell again, alone:
+    //  * the same decisive class shows again            -> violation (seen twice, once alone);
+    //  * the re-run completes every transfer, cleanly   -> the first sighting was a load artefact:
+    //    the cell is decided by its isolated execution (counted, not inconclusive);
+    //  * anything else                                   -> inconclusive.
     let mut candidates = stuck.into_inner().unwrap();
     candidates.sort_by(|a, b| (a.case, &a.class).cmp(&(b.case, &b.class)));
     candidates.dedup_by(|a, b| a.case == b.case && a.class == b.class);
     rep.obs("rerun_candidates", candidates.len() as u64);
-    // re-run order: one case per distinct class first, so every class gets its isolated second look
+    // order: one case per distinct decisive class first (so every class gets its isolated second
+    // look, after which further sightings of it need no re-run), then the other decisive ones, the
+    // cases that could not be judged last (their re-runs can be the long ones)
     let mut cases: Vec<u64> = Vec::new();
     let mut seen_class: std::collections::BTreeSet<&str> = std::collections::BTreeSet::new();
-    for c in &candidates {
+    for c in candidates.iter().filter(|c| !c.soft) {
         if seen_class.insert(c.class.as_str()) && !cases.contains(&c.case) {
             cases.push(c.case);
         }
     }
-    let n_classes = cases.len();
-    for c in &candidates {
+    for c in candidates.iter().filter(|c| !c.soft).chain(candidates.iter().filter(|c| c.soft)) {
         if !cases.contains(&c.case) {
             cases.push(c.case);
         }
     }
-    let max_reruns = ctx.opt_u64("reruns", ctx.tier.pick(3, 20)) as usize;
+    // the re-runs get their own allowance, counted from the end of the side-by-side phase
+    let rerun_deadline = ctx.started.elapsed() + Duration::from_secs(ctx.opt_u64("rerun_extra_s", ctx.tier.pick(60, 240)));
     let mut confirmed: std::collections::BTreeSet<String> = std::collections::BTreeSet::new();
-    for (i, case) in cases.iter().enumerate() {
+    for case in cases.iter() {
         let group: Vec<&Stuck> = candidates.iter().filter(|c| c.case == *case).collect();
-        // every distinct class gets its isolated second look; beyond that the count and the clock decide
-        let late = ctx.started.elapsed() > ctx.budget + Duration::from_secs(30);
-        if (i >= n_classes && (i >= max_reruns || late)) || ctx.replay.is_some() {
+        if ctx.replay.is_some() {
+            // a replay already runs alone: the candidate itself is the second observation
             for cand in group {
-                if ctx.replay.is_some() {
-                    // a replay already runs alone: the candidate itself is the second observation
-                    report_confirmed(&mut rep, cand);
-                } else if confirmed.contains(&cand.class) {
-                    // one more sighting of a class that an isolated re-run confirmed in this very run
-                    rep.obs(&format!("further_sightings_not_rerun.{}", cand.class), 1);
+                if cand.soft {
+                    rep.inconclusive(&format!("watchdog/{}", cand.class));
                 } else {
-                    rep.inconclusive(&format!("watchdog/{} (not re-run: too many candidates or out of time)", cand.class));
+                    report_confirmed(&mut rep, cand);
                 }
+            }
+            continue;
+        }
+        // nothing left to learn from this case: all its classes were confirmed alone in this run
+        if group.iter().all(|c| !c.soft && confirmed.contains(&c.class)) {
+            for cand in group {
+                rep.obs(&format!("further_sightings_not_rerun.{}", cand.class), 1);
+            }
+            continue;
+        }
+        // a connection that was still moving at its deadline on a machine that is not slow is slow by
+        // its own plan (octet-by-octet credit on a large body): running it again alone tells nothing
+        if pace_now < 1.5 && group.iter().all(|c| c.class == "connection_deadline") {
+            for cand in group {
+                rep.inconclusive(&format!("watchdog/{}", cand.class));
+            }
+            continue;
+        }
+        if ctx.started.elapsed() > rerun_deadline {
+            for cand in group {
+                rep.inconclusive(&format!("watchdog/{} (not re-run: out of time)", cand.class));
             }
             continue;
         }
         let seed = group[0].witness["seed"].as_u64().unwrap_or(ctx.seed);
         let f = Force::from_json(&group[0].witness["generator"], force);
-        let mut scratch = rep.fork();
-        let again = run_cell(ctx, f, seed, *case, &mut scratch, true);
-        for cand in group {
-            match again.iter().find(|a| a.class == cand.class) {
-                Some(a) => {
-                    confirmed.insert(a.class.clone());
-                    report_confirmed(&mut rep, a)
+        // up to two isolated executions: the second one only when the first neither completed nor
+        // showed the class again
+        let mut decided = vec![false; group.len()];
+        for attempt in 0..2 {
+            let mut scratch = rep.fork();
+            let again = run_cell(ctx, f, seed, *case, &mut scratch, true);
+            rep.obs("isolated_reruns", 1);
+            for (k, cand) in group.iter().enumerate() {
+                if decided[k] {
+                    continue;
                 }
-                None => {
-                    rep.inconclusive(&format!("watchdog/{} did not reproduce alone", cand.class));
-                    rep.sample(json!({"not_reproduced": cand.witness}));
+                // the same class, or for a decisive one the same family: a cell that deadlocks shows
+                // as `front` or as `back` depending on which transfer the watchdog looks at first
+                let family = |c: &str| if c.starts_with("aborted_") { "aborted" } else { "stalled" };
+                let same = again.stuck.iter().find(|a| a.class == cand.class).or_else(|| {
+                    again.stuck.iter().find(|a| !a.soft && !cand.soft && family(&a.class) == family(&cand.class))
+                });
+                if let Some(a) = same {
+                    decided[k] = true;
+                    if a.soft {
+                        rep.inconclusive(&format!("watchdog/{} (again when run alone)", cand.class));
+                        rep.sample(json!({"again_alone": a.witness}));
+                    } else {
+                        confirmed.insert(a.class.clone());
+                        report_confirmed(&mut rep, a);
+                    }
+                } else if again.clean && scratch.inconclusive == 0 {
+                    decided[k] = true;
+                    rep.obs(&format!("decided_by_isolated_rerun.completed.{}", cand.class), 1);
                 }
+            }
+            if std::env::var_os("C14_DEBUG").is_some() {
+                eprintln!(
+                    "C14 re-run case {case} attempt {attempt}: candidates {:?} -> alone: {:?}, clean {}, scratch inconclusive {}",
+                    group.iter().map(|c| c.class.as_str()).collect::<Vec<_>>(),
+                    again.stuck.iter().map(|a| (a.class.as_str(), a.detail.chars().take(120).collect::<String>())).collect::<Vec<_>>(),
+                    again.clean,
+                    scratch.inconclusive
+                );
+            }
+            if decided.iter().all(|d| *d) || attempt == 1 {
+                break;
+            }
+        }
+        for (k, cand) in group.iter().enumerate() {
+            if !decided[k] {
+                rep.inconclusive(&format!("watchdog/{} did not reproduce alone, the isolated runs did not complete either", cand.class));
+                rep.sample(json!({"not_reproduced": cand.witness}));
             }
         }
     }
